@@ -313,6 +313,26 @@ KNOWN = [
 ]
 
 
+# evaluate-once / left-to-right where the operands have side effects on shared mutable state (expected output by construction)
+DIRECTED = [
+    ("interpolation-parts-are-rendered-as-they-are-evaluated",
+     'var n = 0; fn next() { n = n + 1; return n; }\nprint("${next()}-${next()}-${n}-${next()}");\nvar v = [1]; print("${v} then ${v.push(2)} then ${v}");\n'
+     'var m = {"k": 0}; fn bump() { m.insert("k", m.get("k") + 1); return 1; } print("m=${m} bump=${bump()} m=${m}");\nprint("${"a${next()}"}${next()}|${n}");',
+     ["1-2-2-3", "[1] then [1, 2] then [1, 2]", "m={k: 0} bump=1 m={k: 1}", "a45|5"]),
+    ("operands-left-to-right-once",
+     'var log = []; fn t(x) { log.push(x); return x; }\nvar r = t(1) + t(2) * t(3) - t(4); print(r); print(log); log = [];\nvar v = [t(10), t(20), t(30)]; var tu = (t(1), t(2)); var mp = {t("a"): t(1), t("b"): t(2)}; print(log); log = [];\n'
+     'fn f(a, b, c) { return a + b + c; } print(f(t(1), t(2), t(3))); print(log); log = [];\nvar w = [0, 0, 0]; w[t(1)] = t(7); print(w); print(log); log = [];\n'
+     'print(t(false) && t(1)); print(t(true) || t(2)); print(t(nil) || t(3)); print(log); log = [];\nprint((t(1)..t(4))); print(log); log = [];\nprint([5, 6, 7][t(0)..t(2)]); print(log);',
+     ["3", "[1, 2, 3, 4]", "[10, 20, 30, 1, 2, a, 1, b, 2]", "6", "[1, 2, 3]", "[0, 7, 0]", "[1, 7]", "false", "true", "3", "[false, true, nil, 3]",
+      "Range(1, 4)", "[1, 4]", "[5, 6]", "[0, 2]"]),
+    ("compound-assignment-evaluates-its-target-once",
+     'var log = []; fn t(x) { log.push(x); return x; }\nvar a = 1; a += t(2); a *= t(3); a -= t(1); print(a); print(log); log = [];\n'
+     '#[constructor(new)] class K { } var o = K.new(); o.f = 1; fn get() { log.push("get"); return o; } get().f = t(5); print(o.f); print(log); log = [];\n'
+     'var s = "x"; s += "y" + "z"; print(s); var sh = 256; sh >>= 64; print(sh); sh = 1; sh <<= 3; print(sh);',
+     ["8", "[2, 3, 1]", "5", "[get, 5]", "xyz", "0", "8"]),
+]
+
+
 def correspondence(ctx, model_ok=True):
     rng = ctx.rng.fork("c05")
     failures = []
@@ -350,8 +370,14 @@ def correspondence(ctx, model_ok=True):
         c = progs.canon_step(r)
         if (exp is not None and (c[0] != "ok" or list(c[2]) != exp)) or (exp is None and c[0] != "ok"):
             failures.append({"what": "known scenario %s: %s" % (name, c), "program": src, "expected": exp, "signature": "known " + name.split("-")[0], "failing_input": True})
+    dres, _ = progs.run_programs(ctx.runner, [(n, s, {}) for n, s, _ in DIRECTED], {"gc": "default"}, tag="d")
+    for (name, src, exp), r in zip(DIRECTED, dres):
+        c = progs.canon_step(r)
+        if c[0] != "ok" or list(c[2]) != exp:
+            failures.append({"what": "directed scenario '%s' prints %s (%s %s), expected %s" % (name, list(c[2]) if len(c) > 2 else c, c[0], list(c[3])[:1] if len(c) > 3 else "", exp),
+                             "program": src, "expected": exp, "signature": "scenario " + name, "failing_input": True})
     gen = progs.generated(rng, ["expr", "control", "typed", "typed-try"], 8000 if ctx.thorough else 600)
-    sd = specdiff.diff(ctx, [(n, s, m) for n, s, m, _ in gen], "C05", broken) if model_ok else {"failures": [], "compared": 0}
+    sd = specdiff.diff(ctx, [(n, s, m) for n, s, m, _ in gen] + [("scenario:" + n, s, {}) for n, s, _ in DIRECTED], "C05", broken) if model_ok else {"failures": [], "compared": 0}
     failures += sd["failures"]
     cov = {
         "evaluations": len(cases) + sd["compared"],
